@@ -153,6 +153,13 @@ func runC13(env *core.Env) {
 			add(fmt.Sprintf("reader||%s/%s/%s", wr.name, r.name, r.sname), r.store, bound, r.req, wr.req)
 		}
 	}
+	// one append larger than the reader's scan buffer (64 KiB) landing between the reader's size probe and its scan
+	{
+		bigBody := strings.Repeat("0123456789abcdef", 100*1024/16)
+		add("reader||set-T3{body-100KB,state}/list--all/S_A", f.SA, bound, core.R("", "--json", "list", "--all"), core.R("", "--json", "set", f.T3).In(jsonStr(map[string]string{"body": bigBody, "state": "blocked"})))
+		add("reader||new-task{body-100KB}/show-T1/S_A", f.SA, bound, core.R("", "--json", "show", f.T1), core.R("", "--json", "new", "task").In(jsonStr(map[string]string{"title": "big late", "body": bigBody})))
+		add("reader||new-task{body-100KB}/list-text/S_A", f.SA, bound, core.R("", "list", "--all").In(""), core.R("", "--json", "new", "task").In(jsonStr(map[string]string{"title": "big late", "body": bigBody})))
+	}
 	// big log: the reader's scan is several read(2)s; writers that append, rewrite, or both
 	bigWriters := []c02Cmd{alpha[0], alpha[6], alpha[12], alpha[14], alpha[len(alpha)-1]}
 	for _, wcmd := range bigWriters {
@@ -177,7 +184,7 @@ func runC13(env *core.Env) {
 	// scheduled part; here only "readers never fail" is asserted.)
 	st.PerScenario["partial-visibility-phase"] = c13PartialVisibility(env, f, alpha)
 	exploreMany(env, st, "C13", jobs, 4)
-	finishSched(env, st, "a lock-free reader (list --json --all, show --json; the text views list --epic, list --all, show <epic> against 6 writers that change what they show; thorough: also --epics/--ready) against every writer of the C02 alphabet plus a >4 KiB multi-event append, on a small and a 140 KB store (multi-read scans), plus reader against two writers; every interleaving of the reader's steps (path stat, open, tail probe, each read chunk) with the writer's steps up to the preemption bound; oracle: the reader exits 0 and its output equals the same command's output on one of the store versions that existed between its invocation and its exit (snapshots after every scheduler step)")
+	finishSched(env, st, "a lock-free reader (list --json --all, show --json; the text views list --epic, list --all, show <epic> against 6 writers that change what they show; thorough: also --epics/--ready) against every writer of the C02 alphabet plus a >4 KiB multi-event append and single appends of 100 KB (larger than the scan buffer), on a small and a 140 KB store (multi-read scans), plus reader against two writers; every interleaving of the reader's steps (path stat, open, tail probe, each read chunk) with the writer's steps up to the preemption bound; oracle: the reader exits 0 and its output equals the same command's output on one of the store versions that existed between its invocation and its exit (snapshots after every scheduler step)")
 }
 
 func c13PartialVisibility(env *core.Env, f *concFix, alpha []c02Cmd) map[string]interface{} {
